@@ -28,25 +28,55 @@ Fixpoint proj_errs (evs : list event) : list (Z * Z) :=
 Fixpoint proj_reports (evs : list event) : list report :=
   match evs with [] => [] | EvReport x :: r => x :: proj_reports r | _ :: r => proj_reports r end.
 
+Fixpoint proj_checks (evs : list event) : list (Z * Z) :=
+  match evs with [] => [] | EvCheck i p :: r => (i, p) :: proj_checks r | _ :: r => proj_checks r end.
+
+(* (Partition, Offset) of every submitted message after Close (the harness initialises them to -7 / -9):
+   Partition is written for a message that found an expectation and whose partitioner call succeeded,
+   Offset only when the message is delivered on Successes() *)
+Fixpoint lookup_succ (id : Z) (l : list (Z * Z * Z)) : Z :=
+  match l with [] => -9 | (i, _, o) :: r => if Z.eqb i id then o else lookup_succ id r end.
+Fixpoint final_expected (nexp : nat) (ms : list (Z * msg)) (succ : list (Z * Z * Z)) : list (Z * Z) :=
+  match ms with
+  | [] => []
+  | (_, m) :: r =>
+    (match nexp, m_pres m with S _, POk p => p | _, _ => -7 end, lookup_succ (m_id m) succ)
+    :: final_expected (pred nexp) r succ
+  end.
+
 Record acase := {
   ac_cfg : cfg; ac_def : Z; ac_over : list (Z * Z);
   ac_exps : list expectation; ac_msgs : list (Z * msg);
   ac_succ : list (Z * Z * Z); ac_errs : list (Z * Z); ac_reports : list report;
-  ac_np : list (Z * Z) }.   (* partitioner log: (message id, partition count offered) *)
+  ac_np : list (Z * Z * Z);   (* partitioner log: (message id, partition count offered, topic the instance was constructed for) *)
+  ac_ctor : list Z;           (* topics config.Producer.Partitioner was called with, in call order *)
+  ac_checks : list (Z * Z);   (* checker calls: (message id, msg.Partition seen by the checker) *)
+  ac_final : list (Z * Z) }.  (* (Partition, Offset) of each message of ac_msgs after Close *)
 
 (* the partitioner is consulted once per message that finds an expectation, with the configured count.
    [ac_msgs] is the arrival order on the input channel (with two senders: as consumed by the mock). *)
-Fixpoint np_expected (def : Z) (over : list (Z * Z)) (nexp : nat) (ms : list (Z * msg)) : list (Z * Z) :=
+Fixpoint np_expected (def : Z) (over : list (Z * Z)) (nexp : nat) (ms : list (Z * msg)) : list (Z * Z * Z) :=
   match ms, nexp with
-  | (t, m) :: r, S n => (m_id m, partitions_for def over t) :: np_expected def over n r
+  | (t, m) :: r, S n => (m_id m, partitions_for def over t, t) :: np_expected def over n r
   | _, _ => []
+  end.
+
+(* one partitioner per topic, constructed when the first message of that topic is handled *)
+Fixpoint first_occ (seen : list Z) (l : list Z) : list Z :=
+  match l with
+  | [] => []
+  | x :: r => if existsb (Z.eqb x) seen then first_occ seen r else x :: first_occ (x :: seen) r
   end.
 
 Definition ok_async (a : acase) : bool :=
   let h := async_history (ac_cfg a) (ac_exps a) (map snd (ac_msgs a)) in
   list_eqb z3_eqb (proj_succ h) (ac_succ a) && list_eqb z2_eqb (proj_errs h) (ac_errs a) &&
   list_eqb report_eqb (proj_reports h) (ac_reports a) &&
-  list_eqb z2_eqb (np_expected (ac_def a) (ac_over a) (length (ac_exps a)) (ac_msgs a)) (ac_np a).
+  list_eqb z3_eqb (np_expected (ac_def a) (ac_over a) (length (ac_exps a)) (ac_msgs a)) (ac_np a) &&
+  (* the async mock looks the partitioner up before it looks for an expectation: every arriving message counts *)
+  list_eqb Z.eqb (first_occ [] (map fst (ac_msgs a))) (ac_ctor a) &&
+  list_eqb z2_eqb (proj_checks h) (ac_checks a) &&
+  list_eqb z2_eqb (final_expected (length (ac_exps a)) (ac_msgs a) (proj_succ h)) (ac_final a).
 Definition mismatches_async := mismatches ok_async.
 
 (* ---- sync mock: a script of SendMessage / SendMessages calls, then Close ---- *)
@@ -60,36 +90,40 @@ Definition topics_of (c : ccall) : list (Z * Z) :=            (* message id -> t
 (* per call: returned partition, returned offset, error id (0 = nil), (Partition, Offset) of every message
    after the call (the harness initialises them to -7 / -9), reporter calls during the call.
    SendMessages returns only an error: the harness writes (0, 0, 0) for nil and (-1, -1, e) otherwise. *)
-Definition sobs := (Z * Z * Z * list (Z * Z) * list report)%type.
+Definition sobs := (Z * Z * Z * list (Z * Z) * list report * list (Z * Z))%type.   (* last: checker calls (id, Partition seen) *)
 
 Record scase := {
   sc_def : Z; sc_over : list (Z * Z);
   sc_exps : list expectation; sc_calls : list ccall;
   sc_rets : list sobs;
   sc_close : list report;
-  sc_np : list (Z * Z) }.     (* partitioner log: (message id, partition count offered) in call order *)
+  sc_np : list (Z * Z * Z);   (* partitioner log: (message id, partition count offered, topic of the instance) in call order *)
+  sc_ctor : list Z }.
 
 Definition touch_obs (t : touch) : Z * Z :=
   (match fst t with Some p => p | None => -7 end, match snd t with Some o => o | None => -9 end).
 
 Definition callres_obs (r : callres) : sobs :=
   match r_ret r with
-  | SOk retp off => (retp, off, 0, map touch_obs (r_touch r), r_rep r)
-  | SErr e => (-1, -1, e, map touch_obs (r_touch r), r_rep r)
+  | SOk retp off => (retp, off, 0, map touch_obs (r_touch r), r_rep r, r_checked r)
+  | SErr e => (-1, -1, e, map touch_obs (r_touch r), r_rep r, r_checked r)
   end.
 
 Definition sobs_eqb (a b : sobs) : bool :=
-  let '(p, o, e, ts, rp) := a in let '(p', o', e', ts', rp') := b in
-  Z.eqb p p' && Z.eqb o o' && Z.eqb e e' && list_eqb z2_eqb ts ts' && list_eqb report_eqb rp rp'.
+  let '(p, o, e, ts, rp, ck) := a in let '(p', o', e', ts', rp', ck') := b in
+  Z.eqb p p' && Z.eqb o o' && Z.eqb e e' && list_eqb z2_eqb ts ts' && list_eqb report_eqb rp rp' && list_eqb z2_eqb ck ck'.
 
 (* the partitioner is consulted for exactly the messages the model says, with the configured count of their topic *)
-Definition np_of (def : Z) (over : list (Z * Z)) (tops : list (Z * Z)) (rs : list callres) : list (Z * Z) :=
-  map (fun id => (id, match lookup id tops with Some t => partitions_for def over t | None => -1 end))
+Definition np_of (def : Z) (over : list (Z * Z)) (tops : list (Z * Z)) (rs : list callres) : list (Z * Z * Z) :=
+  map (fun id => match lookup id tops with Some t => (id, partitions_for def over t, t) | None => (id, -1, -1) end)
       (flat_map r_asked rs).
 
 Definition ok_sync (a : scase) : bool :=
   let '(s, outs) := run_calls (init (sc_exps a)) (map call_of (sc_calls a)) in
   list_eqb sobs_eqb (map callres_obs outs) (sc_rets a) &&
   list_eqb report_eqb (sync_close s) (sc_close a) &&
-  list_eqb z2_eqb (np_of (sc_def a) (sc_over a) (flat_map topics_of (sc_calls a)) outs) (sc_np a).
+  let np := np_of (sc_def a) (sc_over a) (flat_map topics_of (sc_calls a)) outs in
+  list_eqb z3_eqb np (sc_np a) &&
+  (* the sync mock constructs a topic's partitioner only for a message that found an expectation *)
+  list_eqb Z.eqb (first_occ [] (map snd np)) (sc_ctor a).
 Definition mismatches_sync := mismatches ok_sync.
